@@ -1,7 +1,6 @@
 package exec
 
 import (
-	"bytes"
 	"encoding/json"
 	"go/types"
 	"io"
@@ -23,6 +22,42 @@ type jsonDec struct {
 	reader Value
 	dec    *json.Decoder
 	err    Value
+	m      *Machine
+	c      *frame
+}
+
+type jsonReadErr struct{}
+
+func (jsonReadErr) Error() string { return "interpreted reader failed" }
+
+// Read feeds the real json.Decoder from the interpreted reader, on demand: the
+// decoder asks for more bytes only when it has no complete document buffered,
+// as it does in the program.
+func (d *jsonDec) Read(p []byte) (int, error) {
+	m := d.m
+	n := len(p)
+	if n > 512 {
+		n = 512
+	}
+	chunk := make([]Value, n)
+	for j := range chunk {
+		chunk[j] = sym.BVConst(8, 0)
+	}
+	r := m.invokeMethod(d.c, d.reader, "Read", chunk).(Tuple)
+	cnt := m.term(r[0])
+	if !cnt.Const {
+		m.unsupported("Read returning a symbolic count")
+	}
+	k := int(cnt.SInt())
+	copy(p, m.concreteBytes(chunk[:k], "json stream"))
+	if e, _ := r[1].(Iface); e.T != nil {
+		if m.equalValue(e, m.pkgVar("io", "EOF")).IsTrue() {
+			return k, io.EOF
+		}
+		d.err = e
+		return k, jsonReadErr{}
+	}
+	return k, nil
 }
 
 func (m *Machine) concreteBytes(v Value, what string) []byte {
@@ -272,35 +307,16 @@ func init() {
 	}
 	natives["(*encoding/json.Decoder).Decode"] = func(m *Machine, c *frame, fn *ssa.Function, a []Value) Value {
 		d := m.natives[a[0].(*Value)].Data.(*jsonDec)
+		d.m, d.c = m, c
 		if d.dec == nil {
-			// drain the reader through its interpreted Read method
-			var buf bytes.Buffer
-			for i := 0; i < 10000; i++ {
-				chunk := make([]Value, 512)
-				for j := range chunk {
-					chunk[j] = sym.BVConst(8, 0)
-				}
-				r := m.invokeMethod(c, d.reader, "Read", chunk).(Tuple)
-				n := m.term(r[0])
-				if !n.Const {
-					m.unsupported("Read returning a symbolic count")
-				}
-				buf.Write(m.concreteBytes(chunk[:int(n.SInt())], "json stream"))
-				if e, _ := r[1].(Iface); e.T != nil {
-					if !m.equalValue(e, m.pkgVar("io", "EOF")).IsTrue() {
-						d.err = e
-					}
-					break
-				}
-			}
-			d.dec = json.NewDecoder(&buf)
+			d.dec = json.NewDecoder(d)
 		}
 		var raw json.RawMessage
 		if err := d.dec.Decode(&raw); err != nil {
+			if _, ok := err.(jsonReadErr); ok {
+				return d.err // the stream broke before its end
+			}
 			if err == io.EOF {
-				if d.err != nil {
-					return d.err // the stream broke before its end
-				}
 				return m.pkgVar("io", "EOF")
 			}
 			return m.newErrorString(sym.Str(err.Error()))
